@@ -774,6 +774,17 @@ struct Expected {
     plain_first_cutoff: Vec<usize>,
     /// [topo, date, topo-first-parent, date-first-parent]
     topo: [Vec<usize>; 4],
+    /// The first-parent walk contains a commit that is also a non-first parent of another walked commit. git then
+    /// orders the two differently depending on whether generation numbers are available (the walk that uses them counts
+    /// first-parent edges only, `sort_in_topological_order()` counts all edges), so there is no single git sequence.
+    fp_cross_edges: bool,
+}
+
+fn fp_cross_edges(dag: &Dag, anc: &[u128], w: &Walk) -> bool {
+    let set = walked_set(dag, anc, w, true);
+    bits(set)
+        .into_iter()
+        .any(|c| dag.parents[c].iter().skip(1).any(|p| set & (1u128 << *p) != 0))
 }
 
 fn model_expected(dag: &Dag, anc: &[u128], w: &Walk) -> Expected {
@@ -788,6 +799,7 @@ fn model_expected(dag: &Dag, anc: &[u128], w: &Walk) -> Expected {
             model_topo(dag, anc, w, true, false),
             model_topo(dag, anc, w, true, true),
         ],
+        fp_cross_edges: fp_cross_edges(dag, anc, w),
     }
 }
 
@@ -951,7 +963,7 @@ fn check_all<F: gix_object::Find + Copy>(
                 distinct_times(dag, bits(set).into_iter())
             } else {
                 distinct_times(dag, w.tips.iter().copied().collect::<BTreeSet<_>>().into_iter())
-            };
+            } && !(first_parent && exp.fp_cross_edges);
             if exact {
                 f.push(
                     &format!("{name}:sequence"),
@@ -969,6 +981,12 @@ fn check_all<F: gix_object::Find + Copy>(
     seqs
 }
 
+fn remove_commit_graph(world: &FastWorld) {
+    let info = world.repo().join("objects").join("info");
+    let _ = std::fs::remove_file(info.join("commit-graph"));
+    let _ = std::fs::remove_dir_all(info.join("commit-graphs"));
+}
+
 fn git_rev_list(git: &Git, ids: &[ObjectId], args: &[String]) -> Result<Vec<usize>, String> {
     let mut a = vec!["rev-list".to_string()];
     a.extend(args.iter().cloned());
@@ -981,7 +999,7 @@ fn git_rev_list(git: &Git, ids: &[ObjectId], args: &[String]) -> Result<Vec<usiz
     Ok(v)
 }
 
-fn git_expected(git: &Git, ids: &[ObjectId], w: &Walk) -> Result<Expected, String> {
+fn git_expected(git: &Git, ids: &[ObjectId], w: &Walk, fp_cross_edges: bool) -> Result<Expected, String> {
     let tips: Vec<String> = w.tips.iter().map(|t| ids[*t].to_string()).collect();
     let hidden: Vec<String> = w.hidden.iter().map(|t| format!("^{}", ids[*t])).collect();
     let with = |pre: &[&str], hide: bool| -> Vec<String> {
@@ -1004,6 +1022,7 @@ fn git_expected(git: &Git, ids: &[ObjectId], w: &Walk) -> Result<Expected, Strin
             git_rev_list(git, ids, &with(&["--topo-order", "--first-parent"], true))?,
             git_rev_list(git, ids, &with(&["--date-order", "--first-parent"], true))?,
         ],
+        fp_cross_edges,
     })
 }
 
@@ -1020,7 +1039,13 @@ fn validate_model(model: &Expected, git: &Expected) -> Result<(), String> {
         ("rev-list --date-order --first-parent", &model.topo[3], &git.topo[3]),
     ];
     for (name, m, g) in pairs {
-        if m != g {
+        let set_only = model.fp_cross_edges && name.contains("-order --first-parent");
+        let same = if set_only {
+            m.iter().collect::<BTreeSet<_>>() == g.iter().collect::<BTreeSet<_>>() && m.len() == g.len()
+        } else {
+            m == g
+        };
+        if !same {
             return Err(format!("{name}: model {} git {}", show_seq(m), show_seq(g)));
         }
     }
@@ -1099,7 +1124,7 @@ pub fn main() {
     let mut ck = Check::new("C47", "exploration");
     ck.rule("Commit DAGs as in C46 (2..120 commits by `git fast-import`, or 2..40 in memory: criss-cross and octopus merges, several roots, commit times increasing / all equal / colliding / inverted / random / mostly increasing); tips 1..4 (branch heads, late commits, any commit, duplicates), hidden commits 0..2 (ancestors of tips, parents of merges inside the walk, any commit, a tip itself), a cut-off date taken from a walked commit (+-1); every mode (Simple x {BreadthFirst, ByCommitTime Newest/Oldest, ByCommitTimeCutoff Newest/Oldest} x {All, First}; Topo x {TopoOrder, DateOrder} x {All, First} with the hidden commits as ends) is run per case, in sub-check rev-list both without and with a commit-graph (full v1/v2, partial, chain). Non-trivial: the walked history contains a merge and (two walked commits share a date, or a hidden commit cuts off a part of it). Distinct by hash of (DAG, tips, hidden, cut-off, graph kind).");
     ck.assume(&format!(
-        "oracle: {} `rev-list [--topo-order|--date-order] [--first-parent] [--max-age=N] tips ^hidden`; sequences are compared exactly only when the commit dates involved are pairwise distinct (git breaks ties by insertion order, gitoxide by heap order), otherwise by a validity predicate; Simple has no notion of hidden commits in this version and is compared without them; OldestFirst and BreadthFirst have no git equivalent and are checked as sets plus a validity predicate",
+        "oracle: {} `rev-list [--topo-order|--date-order] [--first-parent] [--max-age=N] tips ^hidden`, asked while a full commit-graph is present (without generation numbers git does not reliably hide the ancestry of ^hidden when commit dates are skewed); sequences are compared exactly only when the commit dates involved are pairwise distinct (git breaks ties by insertion order, gitoxide by heap order), otherwise by a validity predicate; for --first-parent topological walks that contain a commit which is also a non-first parent of another walked commit git itself prints two different orders with and without generation numbers, these are compared by set and validity predicate (first-parent edges) only; Simple has no notion of hidden commits in this version and is compared without them; OldestFirst and BreadthFirst have no git equivalent and are checked as sets plus a validity predicate",
         Git::version()
     ));
     ck.assume("Simple is configured in the order sorting() then parents() (the order gix::revision::walk uses)");
@@ -1134,7 +1159,9 @@ pub fn main() {
                     c.infra("fast-import produced other commit ids than the in-memory serialisation".to_string());
                     return;
                 }
-                let git = infra!(c, git_expected(&world.git, &ids, &w), "git rev-list");
+                // git hides the ancestry of `^commit` reliably only with generation numbers (see sub-check rev-list)
+                infra!(c, write_commit_graph(&world, &ids, GraphKind::FullV2), "git commit-graph write");
+                let git = infra!(c, git_expected(&world.git, &ids, &w, exp.fp_cross_edges), "git rev-list");
                 if let Err(e) = validate_model(&exp, &git) {
                     c.infra(format!("MODEL-BUG: {e}; {}; DAG: {}", show_walk(&w), show_dag(&dag)));
                     return;
@@ -1147,7 +1174,7 @@ pub fn main() {
     let known2 = known.clone();
     ck.sub(
         "rev-list",
-        SubCfg::new(600, 12_000).max_len(1600).max_shrink(40),
+        SubCfg::new(400, 10_000).max_len(1600).max_shrink(40),
         move |t, c| {
             let dag = gen_dag(t, false);
             let anc = dag.ancestors();
@@ -1171,8 +1198,14 @@ pub fn main() {
 
             let world = infra!(c, FastWorld::new("c47"), "world");
             let ids = infra!(c, import(&world, &dag), "fast-import");
-            let git = infra!(c, git_expected(&world.git, &ids, &w), "git rev-list");
             let model = model_expected(&dag, &anc, &w);
+            // The oracle runs with a full commit-graph: without generation numbers git's own walk does not reliably
+            // hide the ancestry of `^commit` when commit dates are skewed (it stops propagating after a few commits
+            // that look older), and then prints commits that are ancestors of a hidden commit.
+            infra!(c, write_commit_graph(&world, &ids, GraphKind::FullV2), "git commit-graph write (oracle)");
+            let git = infra!(c, git_expected(&world.git, &ids, &w, model.fp_cross_edges), "git rev-list");
+            remove_commit_graph(&world);
+            c.label_if(model.fp_cross_edges, "first-parent-walk-with-cross-edges");
             if let Err(e) = validate_model(&model, &git) {
                 c.infra(format!("MODEL-BUG: {e}; {}; DAG: {}", show_walk(&w), show_dag(&dag)));
                 return;
@@ -1192,12 +1225,13 @@ pub fn main() {
             let open = || gix_commitgraph::at(&info).ok();
             let state = format!("with commit-graph {graph_kind:?}");
             let with = check_all(&odb, &open, &ids, &dag, &anc, &w, &git, &state, &mut f);
-            // the oracle itself must not depend on the commit-graph
-            if t.chance(64) {
-                c.label("oracle-rechecked-with-commit-graph");
-                let again = infra!(c, git_expected(&world.git, &ids, &w), "git rev-list");
+            // the oracle itself must not depend on the kind of commit-graph (checked where git is reliable: nothing
+            // hidden, or commit dates that grow with the topology)
+            if t.chance(64) && (w.hidden.is_empty() || dag.time_mode == "increasing") {
+                c.label("oracle-rechecked-with-this-commit-graph");
+                let again = infra!(c, git_expected(&world.git, &ids, &w, model.fp_cross_edges), "git rev-list");
                 if let Err(e) = validate_model(&git, &again) {
-                    c.infra(format!("git changes its answer when a commit-graph is present: {e}"));
+                    c.infra(format!("git changes its answer with commit-graph {graph_kind:?}: {e}"));
                     return;
                 }
             }
